@@ -12,12 +12,12 @@ from mc.ref import ips as refips
 
 ID = "C16"
 LEVEL = "exploration"
-LEVEL_TEXT = ("Complete enumeration, for 12 base programs that together contain every statement kind and every operand shape (generated "
+LEVEL_TEXT = ("Complete enumeration, for 13 base programs that together contain every statement kind and every operand shape (generated "
               "programs plus the repository's sample source), of every applicable site of every listed presentation change: blank line, "
               "full-line ; comment, one-line and multi-line /* */ comment before each line; indentation by spaces or a tab, trailing "
               "spaces, end-of-line ; comment on each line; a space before/after every operator and comma; a space after an opening and "
-              "before a closing bracket of an operand; upper-casing each mnemonic, size suffix, index register and hexadecimal literal; "
-              "moving every contiguous run of top-level statements into an .include file. All single edits and all unordered pairs "
+              "before a closing bracket of an operand; upper-casing and mixed-casing each mnemonic and hexadecimal literal, upper-casing each size suffix and index register; comments with star runs, quotes and braces inside; "
+              "moving every contiguous run of top-level statements into an .include file (also the same file included several times, and nested includes). All single edits and all unordered pairs "
               "(quick: pairs within an 8-line window, all pairs for the smaller programs) are applied and the variant's blocks, labels "
               "and root symbols compared with the base program's. Tests use one fixed layout per snippet.")
 LEVEL_NOTE = ("Metamorphic: the base programs' absolute correctness is C01-C10's business. Sites not listed by the property are not edited "
@@ -70,6 +70,11 @@ def constructs_program():
     ]
 
 
+def repeated_program():
+    run = [("data", "db", [N(1), N(2), N(3)]), ("data", "dw", [N(0x1234)]), ("ins", "nop", "", None, None)]
+    return [("org", N(ORG)), ("label", "start")] + run + [("data", "db", [N(0x55)])] + run + [("ins", "rts", "", None, None)] + run + [("data", "dl", [S("start")])]
+
+
 def map_program():
     return [("map", ("1", (0x00, 0x3F), 0x8000, False, (0x80, 0xBF))), ("map", ("2", (0x7E, 0x7F), 0x10000, True, None)),
             ("org", N(0x018000)), ("label", "a1"), ("data", "dl", [S("a1")]), ("org", N(0x818100)), ("label", "a2"), ("data", "dl", [S("a2")])]
@@ -88,6 +93,7 @@ def base_programs():
     progs.append(("shapes", shapes_program()))
     progs.append(("constructs", constructs_program()))
     progs.append(("map", map_program()))
+    progs.append(("repeated", repeated_program()))
     out = []
     for name, prog in progs:
         files = dict(FILES)
@@ -166,6 +172,7 @@ def line_sites(line):
             sites.append((col + 1, "space-after-comma", None))
         for m in re.finditer(r"0x[0-9a-fA-F]*[a-f][0-9a-fA-F]*", seg):
             sites.append((a + m.start(), "upper-hex", m.group()))
+            sites.append((a + m.start(), "mixed-hex", m.group()))
         if opcode:
             for m in re.finditer(r"[(\[]", seg):
                 sites.append((a + m.start() + 1, "space-after-open-bracket", None))
@@ -178,6 +185,8 @@ def line_sites(line):
                 sites.append((a + m.start(1), "upper-index", m.group(1)))
     if opcode:
         sites.append((lead, "upper-mnemonic", stripped[:3]))
+        for mask in range(1, 7):  # the six mixed-case spellings (all-upper is the edit above)
+            sites.append((lead, f"mixed-case-mnemonic-{mask}", stripped[:3]))
         if stripped[3:4] == ".":
             sites.append((lead + 4, "upper-suffix", stripped[4]))
     return sites
@@ -189,11 +198,23 @@ def apply_inline(line, site):
         return line[:col] + " " + line[col:]
     if kind == "upper-hex":
         return line[:col] + "0x" + payload[2:].upper() + line[col + len(payload):]
+    if kind == "mixed-hex":
+        mixed = "".join(c.upper() if i % 2 == 0 else c for i, c in enumerate(payload[2:]))
+        return line[:col] + "0x" + mixed + line[col + len(payload):]
+    if kind.startswith("mixed-case-mnemonic-"):
+        mask = int(kind.rsplit("-", 1)[1])
+        word = "".join(c.upper() if mask >> i & 1 else c.lower() for i, c in enumerate(payload))
+        return line[:col] + word + line[col + len(payload):]
     return line[:col] + payload.upper() + line[col + len(payload):]
 
 
 LINE_EDITS = ["blank-before", "semicolon-comment-before", "block-comment-before", "multiline-comment-before", "indent-spaces", "indent-tab",
-              "trailing-spaces", "eol-comment"]
+              "trailing-spaces", "eol-comment", "star-comment-before", "doc-comment-before", "tricky-comment-before", "eol-tricky-comment"]
+COMMENT_TEXT = {
+    "star-comment-before": "/***/",
+    "doc-comment-before": "/** documentation **/",
+    "tricky-comment-before": "/* a * b ** c / d 'q' \"dq\" { } ; .db 1 ****/",
+}
 
 
 def in_code_arg(lines, i):
@@ -208,8 +229,8 @@ def all_edits(lines):
         if not line.strip():
             continue
         for kind in LINE_EDITS:
-            if kind in ("indent-spaces", "indent-tab", "trailing-spaces", "eol-comment"):
-                col = 10 ** 6 if kind in ("trailing-spaces", "eol-comment") else -2
+            if kind in ("indent-spaces", "indent-tab", "trailing-spaces", "eol-comment", "eol-tricky-comment"):
+                col = 10 ** 6 if kind in ("trailing-spaces", "eol-comment", "eol-tricky-comment") else -2
             else:
                 col = -1
             edits.append((i, col, kind, None))
@@ -239,6 +260,10 @@ def apply_edits(lines, edits):
             out[i] = out[i] + "   "
         elif kind == "eol-comment":
             out[i] = out[i] + " ; trailing comment"
+        elif kind == "eol-tricky-comment":
+            out[i] = out[i] + " ; it's /* not a block */ 'x' { lda #1 } ;; **/"
+        elif kind in COMMENT_TEXT:
+            out.insert(i, COMMENT_TEXT[kind])
         else:
             out[i] = apply_inline(out[i], (col, kind, payload))
     return out
@@ -268,7 +293,7 @@ def with_include(lines, run, fname="moved.s"):
 # ---- cases --------------------------------------------------------------------------------
 
 def bound(tier):
-    return ("12 base programs; every single edit; " + ("all unordered pairs of edits and all triples within a 3-line window" if tier == "thorough" else
+    return ("13 base programs; every single edit; " + ("all unordered pairs of edits and all triples within a 3-line window" if tier == "thorough" else
             "all pairs within an 8-line window (all pairs for programs with <= 150 sites)") + "; every top-level run moved to an .include file, alone and "
             "combined with every in-line edit")
 
@@ -346,6 +371,34 @@ def run_case(case):
                 break
     elif kind == "include":
         inline = [e for e in edits if e[1] >= 0 and e[1] < 10 ** 6]
+        if case[2] == 0:
+            runs = top_level_runs(lines)
+            # the same file included twice (or three times): identical, non-overlapping runs all replaced by one .include
+            for ra in runs:
+                text_a = lines[ra[0]:ra[1]]
+                same_runs = [rb for rb in runs if rb[0] >= ra[1] and lines[rb[0]:rb[1]] == text_a and (rb[1] - rb[0]) == (ra[1] - ra[0])]
+                picked = [ra]
+                for rb in same_runs:
+                    if rb[0] >= picked[-1][1]:
+                        picked.append(rb)
+                if len(picked) >= 2 and not any(ln.rstrip().endswith(":") for ln in text_a):
+                    v = list(lines)
+                    for r in reversed(picked):
+                        v[r[0]:r[1]] = [".include 'moved.s'"]
+                    try_variant(v, {"moved.s": "\n".join(text_a) + "\n"}, "same-file-included-%d-times" % len(picked))
+            # nested include: a run moved to a file, an inner run of it moved to a second file
+            for (i, j) in runs:
+                if j - i < 3:
+                    continue
+                outer = lines[i:j]
+                for (x, y) in top_level_runs(outer):
+                    if (x, y) == (0, len(outer)) or y - x < 1:
+                        continue
+                    inner_v = outer[:x] + [".include 'moved2.s'"] + outer[y:]
+                    v = lines[:i] + [".include 'moved.s'"] + lines[j:]
+                    try_variant(v, {"moved.s": "\n".join(inner_v) + "\n", "moved2.s": "\n".join(outer[x:y]) + "\n"}, "nested-include")
+                    if evals > 4000:
+                        break
         for ri, run in enumerate(top_level_runs(lines)):
             if ri % 16 != case[2]:
                 continue
@@ -379,6 +432,11 @@ def run_case(case):
                 break
     else:
         _, _, chunk, tier = case
+        if tier != "thorough":
+            # quick: the extra spellings of one kind of edit are tried alone (singles) and in pairs only through one representative
+            singles_only = {"mixed-case-mnemonic-2", "mixed-case-mnemonic-3", "mixed-case-mnemonic-4", "mixed-case-mnemonic-5",
+                            "mixed-case-mnemonic-6", "mixed-hex", "star-comment-before", "doc-comment-before", "eol-tricky-comment"}
+            edits = [e for e in edits if e[2] not in singles_only]
         allpairs = tier == "thorough" or len(edits) <= 150
         idx = 0
         for a, b in itertools.combinations(range(len(edits)), 2):
